@@ -16,22 +16,22 @@ import (
 
 // A Plan is one simulated run.
 type Plan struct {
-	Prop    string           `json:"prop"`
-	Class   string           `json:"class,omitempty"` // population label (exact, faults, …)
-	Scenario string          `json:"scenario,omitempty"` // "" = daemon altitude; otherwise a component scenario
-	Clock   []int64          `json:"clock,omitempty"`    // scenario "clock": clock readings, ns relative to the epoch
-	Steps   []Step           `json:"steps,omitempty"`    // component scenarios: scripted steps
-	Offset  int64            `json:"offset"`          // fake ns slept before anything starts (seeds the daemon's PRNGs)
-	Cancel  uint64           `json:"cancel,omitempty"` // order in which a cancelled context cancels its children (0 = insertion order)
-	Nodes   []NodeSpec       `json:"nodes"`
-	Loop    []RouteW         `json:"loop,omitempty"`   // loopback routes (world-global)
-	LoopIdx []int            `json:"loopidx,omitempty"` // indexes of loopback interfaces (default [1])
-	Actions []Action         `json:"actions,omitempty"`
-	Faults  []Fault          `json:"faults,omitempty"`
-	Horizon int64            `json:"horizon"`        // fake ns after which the run is stopped
-	Stop    string           `json:"stop,omitempty"` // signal used at the horizon (default SIGTERM); "none": cancel by SIGTERM too but oracles treat as plain end
-	Tail    int64            `json:"tail,omitempty"` // fake ns observed after Serve returned (default 10s)
-	Opt     map[string]int64 `json:"opt,omitempty"`
+	Prop     string           `json:"prop"`
+	Class    string           `json:"class,omitempty"`    // population label (exact, faults, …)
+	Scenario string           `json:"scenario,omitempty"` // "" = daemon altitude; otherwise a component scenario
+	Clock    []int64          `json:"clock,omitempty"`    // scenario "clock": clock readings, ns relative to the epoch
+	Steps    []Step           `json:"steps,omitempty"`    // component scenarios: scripted steps
+	Offset   int64            `json:"offset"`             // fake ns slept before anything starts (seeds the daemon's PRNGs)
+	Cancel   uint64           `json:"cancel,omitempty"`   // order in which a cancelled context cancels its children (0 = insertion order)
+	Nodes    []NodeSpec       `json:"nodes"`
+	Loop     []RouteW         `json:"loop,omitempty"`    // loopback routes (world-global)
+	LoopIdx  []int            `json:"loopidx,omitempty"` // indexes of loopback interfaces (default [1])
+	Actions  []Action         `json:"actions,omitempty"`
+	Faults   []Fault          `json:"faults,omitempty"`
+	Horizon  int64            `json:"horizon"`        // fake ns after which the run is stopped
+	Stop     string           `json:"stop,omitempty"` // signal used at the horizon (default SIGTERM); "none": cancel by SIGTERM too but oracles treat as plain end
+	Tail     int64            `json:"tail,omitempty"` // fake ns observed after Serve returned (default 10s)
+	Opt      map[string]int64 `json:"opt,omitempty"`
 }
 
 // A Step is one scripted step of a component scenario.
@@ -45,20 +45,20 @@ type Step struct {
 
 // A NodeSpec is one CoreRAD instance and its machine.
 type NodeSpec struct {
-	Config  ConfigSpec   `json:"config"`
-	Ifaces  []IfaceW     `json:"ifaces"`
-	Metrics string       `json:"metrics,omitempty"` // "prom" (default) or "mem"
-	Script  []ScriptTask `json:"script,omitempty"`  // extra scripted tasks (C20)
-	OnlyScript bool      `json:"only_script,omitempty"`
+	Config     ConfigSpec   `json:"config"`
+	Ifaces     []IfaceW     `json:"ifaces"`
+	Metrics    string       `json:"metrics,omitempty"` // "prom" (default) or "mem"
+	Script     []ScriptTask `json:"script,omitempty"`  // extra scripted tasks (C20)
+	OnlyScript bool         `json:"only_script,omitempty"`
 }
 
 // A ScriptTask is a supervised task whose behaviour is scripted (C20).
 type ScriptTask struct {
 	Name     string `json:"name"`
-	ReadyAt  int64  `json:"ready_at"`  // <0: never ready
-	FailAt   int64  `json:"fail_at"`   // <0: never fails
-	NilAt    int64  `json:"nil_at"`    // <0: never returns nil early
-	StopLag  int64  `json:"stop_lag"`  // returns this long after cancellation
+	ReadyAt  int64  `json:"ready_at"`            // <0: never ready
+	FailAt   int64  `json:"fail_at"`             // <0: never fails
+	NilAt    int64  `json:"nil_at"`              // <0: never returns nil early
+	StopLag  int64  `json:"stop_lag"`            // returns this long after cancellation
 	FailKind string `json:"fail_kind,omitempty"` // "" plain error; "canceled": an error wrapping context.Canceled (an aborted sub-operation of the task)
 }
 
@@ -140,8 +140,8 @@ type RASpec struct {
 	Hop      int       `json:"hop"`
 	M        bool      `json:"m,omitempty"`
 	O        bool      `json:"o,omitempty"`
-	Pref     string    `json:"pref,omitempty"` // low medium high
-	Lifetime int       `json:"lifetime"`       // seconds
+	Pref     string    `json:"pref,omitempty"`    // low medium high
+	Lifetime int       `json:"lifetime"`          // seconds
 	Reach    int64     `json:"reach,omitempty"`   // ms
 	Retrans  int64     `json:"retrans,omitempty"` // ms
 	Opts     []OptSpec `json:"opts,omitempty"`
